@@ -443,8 +443,30 @@ def foreign_harness(e):
         e.distinct(("same-name", where))
         return {"same_named_classes": where}
     x = build(R("VLeaf", {"v": 1}, e.pick([None, "a"], "origin")))
-    other = e.pick(["None", "int", "str", "tuple", "subclass-instance", "other-class", "object"], "comparand")
-    val = {"None": None, "int": 1, "str": "x", "tuple": (x,), "subclass-instance": VSubLeaf(v=1), "other-class": build(R("VNonCmp", {"v": 1})), "object": object()}[other]
+    class _Permissive:
+        """A non-node whose own __eq__ says yes to everything (unittest.mock.ANY, a handle object
+        comparing by id, a wildcard): the node answers first, and it answers False."""
+
+        def __eq__(self, o):
+            return True
+
+        def __ne__(self, o):
+            return False
+
+        __hash__ = None
+
+    class _ById:
+        def __init__(self, id_):
+            self.id = id_
+
+        def __eq__(self, o):
+            return getattr(o, "id", None) == self.id
+
+        def __hash__(self):
+            return hash(self.id)
+
+    other = e.pick(["None", "int", "str", "tuple", "subclass-instance", "other-class", "object", "non-node-with-permissive-eq", "non-node-comparing-by-id", "mock.ANY"], "comparand")
+    val = {"None": None, "int": 1, "str": "x", "tuple": (x,), "subclass-instance": VSubLeaf(v=1), "other-class": build(R("VNonCmp", {"v": 1})), "object": object(), "non-node-with-permissive-eq": _Permissive(), "non-node-comparing-by-id": _ById(x.id), "mock.ANY": __import__("unittest.mock").mock.ANY}[other]
     if (x == val) is not False or (x != val) is not True:
         e.fail("comparison-with-foreign-object-not-False", scenario={"comparand": other})
     e.distinct(other)
